@@ -21,7 +21,7 @@ func runHistory(e *core.Env) {
 	if !needFaketime(e) {
 		return
 	}
-	n := e.N(110, 5000)
+	n := e.N(140, 5000)
 	var w *world
 	defer func() {
 		if w != nil {
